@@ -48,7 +48,9 @@ KQS = {
     "ternary_auto": "ternary(alpha='auto')",
 }
 BQS = {"fixed": "quantized_bits(6,2,1,alpha=1)", "po2": "quantized_po2(5)", "none": None}
-KINDS = ["QDense", "QConv2D", "QDepthwiseConv2D", "QConv1D", "QSeparableConv2D", "QSimpleRNN", "QLSTM", "QGRU", "QBidirectional"]
+# "QConv2D_g2": grouped convolution (groups=2); "QBidirectional_bw": explicit backward layer with ITS OWN kernel quantizer
+KINDS = ["QDense", "QConv2D", "QDepthwiseConv2D", "QConv1D", "QSeparableConv2D", "QSimpleRNN", "QLSTM", "QGRU", "QBidirectional",
+         "QConv2D_g2", "QBidirectional_bw"]
 DATA_INDEP = {"fixed", "po2", "po2_wide", "po2_mv3", "relu_po2_mv", "relu_po2", "binary_const", "ternary_const"}
 FREEZABLE = {"QDense", "QConv2D", "QDepthwiseConv2D"}
 HISTORIES = [["export"], ["export", "export"], ["freeze", "export"], ["freeze", "export", "export"]]
@@ -97,7 +99,7 @@ def build(case):
   L = tf.keras.layers
   first = case["layers"][0]["kind"]
   shape = {"QDense": (5,), "QConv1D": (6, 3), "QSimpleRNN": (4, 3), "QLSTM": (4, 3), "QGRU": (4, 3),
-           "QBidirectional": (4, 3)}.get(first, (6, 6, 3))
+           "QBidirectional": (4, 3), "QBidirectional_bw": (4, 3), "QConv2D_g2": (6, 6, 4)}.get(first, (6, 6, 3))
   x = inp = L.Input(shape, name="inp")
   for i, ly in enumerate(case["layers"]):
     kq, bq = KQS[ly["kq"]], BQS[ly["bq"]]
@@ -109,6 +111,15 @@ def build(case):
       x = qkeras.QDense(3, kernel_quantizer=kq, bias_quantizer=bq, use_bias=ly["use_bias"], name=name)(x)
     elif kind == "QConv2D":
       x = qkeras.QConv2D(2, 2, kernel_quantizer=kq, bias_quantizer=bq, use_bias=ly["use_bias"], name=name)(x)
+    elif kind == "QConv2D_g2":
+      x = qkeras.QConv2D(4, 2, groups=2, kernel_quantizer=kq, bias_quantizer=bq, use_bias=ly["use_bias"], name=name)(x)
+    elif kind == "QBidirectional_bw":
+      bw_kq = KQS["fixed"] if ly["kq"] != "fixed" else KQS["po2"]
+      x = qkeras.QBidirectional(
+          qkeras.QLSTM(2, kernel_quantizer=kq, recurrent_quantizer=KQS["fixed"], bias_quantizer=bq, use_bias=ly["use_bias"],
+                       name="inner%d" % i),
+          backward_layer=qkeras.QLSTM(2, kernel_quantizer=bw_kq, recurrent_quantizer=KQS["po2"], bias_quantizer=bq,
+                                      use_bias=ly["use_bias"], go_backwards=True, name="inner_bw%d" % i), name=name)(x)
     elif kind == "QDepthwiseConv2D":
       x = qkeras.QDepthwiseConv2D(2, depthwise_quantizer=kq, bias_quantizer=bq, use_bias=ly["use_bias"], name=name)(x)
     elif kind == "QConv1D":
